@@ -105,9 +105,6 @@ package generic
 //@   ensures RI(d.Channel.Q)
 //@   modifies wire, rd, quiet, alloc(), all(util.Queue.queue), all(util.Queue.depth), chans()
 //@   ensures result.1 != nil ==> result.0 == ""
-//@ func util.LoadFileLines
-//@   noverify
-//@   modifies alloc()
 //@ func (*Driver).SendCommandsFromFile [C13]
 //@   requires RI(d.Channel.Q) && d.Channel.PromptSearchDepth >= 0
 //@   modifies sent, alloc(), optlog
